@@ -90,6 +90,13 @@ func (s *indexKVStore) GetValue(bucketID uint32, key []byte) (id uint32, ok bool
 
 // GetValues returns all values for bucket.
 func (s *indexKVStore) GetValues(bucketID uint32) (ids []uint32, err error) {
+	// find from memory first, then from the snapshot taken after that: a flush moves entries from memory
+	// into a new table(new snapshot), in the other order the moved entries would be in neither.
+	s.lock.RLock()
+	memIDs := s.getValuesFromMem(s.mutable, bucketID, nil)
+	memIDs = s.getValuesFromMem(s.immutable, bucketID, memIDs)
+	s.lock.RUnlock()
+
 	snapshot := s.getSnapshot()
 
 	reader := v1.NewIndexKVReader(snapshot)
@@ -101,13 +108,7 @@ func (s *indexKVStore) GetValues(bucketID uint32) (ids []uint32, err error) {
 		defer bucket.Release()
 		ids = bucket.GetValues()
 	}
-
-	// find from memory
-	s.lock.RLock()
-	defer s.lock.RUnlock()
-
-	ids = s.getValuesFromMem(s.mutable, bucketID, ids)
-	ids = s.getValuesFromMem(s.immutable, bucketID, ids)
+	ids = append(ids, memIDs...)
 	return ids, nil
 }
 
@@ -162,6 +163,12 @@ func (s *indexKVStore) CollectKVs(bucketID uint32, values *roaring.Bitmap, resul
 		}
 	}
 
+	// memory first, then the snapshot taken after that(see GetValues)
+	s.lock.RLock()
+	collect(s.mutable)
+	collect(s.immutable)
+	s.lock.RUnlock()
+
 	snapshot := s.getSnapshot()
 
 	reader := v1.NewIndexKVReader(snapshot)
@@ -169,11 +176,6 @@ func (s *indexKVStore) CollectKVs(bucketID uint32, values *roaring.Bitmap, resul
 	if err != nil {
 		return err
 	}
-
-	s.lock.RLock()
-	collect(s.mutable)
-	collect(s.immutable)
-	s.lock.RUnlock()
 
 	if bucket != nil {
 		defer bucket.Release()
@@ -212,6 +214,13 @@ func (s *indexKVStore) Suggest(bucketID uint32, prefix string, limit int) ([]str
 		return sortResult(result)
 	}
 
+	// memory first, then the snapshot taken after that(see GetValues)
+	var result []string
+	s.lock.RLock()
+	result = append(result, suggest(s.mutable)...)
+	result = append(result, suggest(s.immutable)...)
+	s.lock.RUnlock()
+
 	snapshot := s.getSnapshot()
 
 	reader := v1.NewIndexKVReader(snapshot)
@@ -219,12 +228,6 @@ func (s *indexKVStore) Suggest(bucketID uint32, prefix string, limit int) ([]str
 	if err != nil {
 		return nil, err
 	}
-
-	var result []string
-	s.lock.RLock()
-	result = append(result, suggest(s.mutable)...)
-	result = append(result, suggest(s.immutable)...)
-	s.lock.RUnlock()
 
 	if bucket != nil {
 		defer bucket.Release()
@@ -423,6 +426,12 @@ func (s *indexKVStore) GetValueFromMem(bucketID uint32, key []byte) (uint32, boo
 
 // FindValuesByRegexp returns values by regexp expr.
 func (s *indexKVStore) FindValuesByRegexp(bucketID uint32, rp *regexp.Regexp, ids []uint32) ([]uint32, error) {
+	// find from memory first, then from the snapshot taken after that(see GetValues)
+	s.lock.RLock()
+	ids = s.findValuesByRegexp(s.mutable, bucketID, rp, ids)
+	ids = s.findValuesByRegexp(s.immutable, bucketID, rp, ids)
+	s.lock.RUnlock()
+
 	snapshot := s.getSnapshot()
 
 	reader := v1.NewIndexKVReader(snapshot)
@@ -434,12 +443,6 @@ func (s *indexKVStore) FindValuesByRegexp(bucketID uint32, rp *regexp.Regexp, id
 		defer bucket.Release()
 		ids = bucket.FindValuesByRegexp(rp, ids)
 	}
-	// find from memory
-	s.lock.RLock()
-	defer s.lock.RUnlock()
-
-	ids = s.findValuesByRegexp(s.mutable, bucketID, rp, ids)
-	ids = s.findValuesByRegexp(s.immutable, bucketID, rp, ids)
 	return ids, nil
 }
 
@@ -492,6 +495,12 @@ func (s *indexKVStore) findValuesByLike(bucketID uint32,
 	prefix, subKey []byte,
 	check func(a, b []byte) bool, ids []uint32,
 ) ([]uint32, error) {
+	// find from memory first, then from the snapshot taken after that(see GetValues)
+	s.lock.RLock()
+	ids = s.findValuesByLikeFormMem(s.mutable, bucketID, subKey, check, ids)
+	ids = s.findValuesByLikeFormMem(s.immutable, bucketID, subKey, check, ids)
+	s.lock.RUnlock()
+
 	snapshot := s.getSnapshot()
 	reader := v1.NewIndexKVReader(snapshot)
 	bucket, err := reader.GetBucket(bucketID)
@@ -502,12 +511,6 @@ func (s *indexKVStore) findValuesByLike(bucketID uint32,
 		defer bucket.Release()
 		ids = bucket.FindValuesByLike(prefix, subKey, check, ids)
 	}
-
-	s.lock.RLock()
-	defer s.lock.RUnlock()
-
-	ids = s.findValuesByLikeFormMem(s.mutable, bucketID, subKey, check, ids)
-	ids = s.findValuesByLikeFormMem(s.immutable, bucketID, subKey, check, ids)
 	return ids, nil
 }
 
